@@ -2167,3 +2167,76 @@ impl SparqlDatabase {
         )
     }
 }
+
+// ---- verif hooks C14 ----
+// Add-only re-exports of private codec functions for the C14 correspondence check
+// (compiled only with RUSTFLAGS="--cfg kolibrie_verif"; no behaviour change).
+#[cfg(kolibrie_verif)]
+pub fn verif_c14_looks_like_absolute_iri(value: &str) -> bool {
+    looks_like_absolute_iri(value)
+}
+#[cfg(kolibrie_verif)]
+pub fn verif_c14_escape_ntriples_literal(value: &str) -> String {
+    escape_ntriples_literal(value)
+}
+#[cfg(kolibrie_verif)]
+pub fn verif_c14_decode_ntriples_literal(term: &str) -> Option<(String, String)> {
+    decode_ntriples_literal(term).map(|(value, rest)| (value, rest.to_string()))
+}
+#[cfg(kolibrie_verif)]
+impl SparqlDatabase {
+    pub fn verif_c14_parse_ntriples_parts(&self, line: &str) -> Vec<String> {
+        self.parse_ntriples_parts(line)
+    }
+    pub fn verif_c14_clean_ntriples_term(&self, term: &str) -> String {
+        self.clean_ntriples_term(term)
+    }
+    pub fn verif_c14_parse_nquads_line(
+        &self,
+        line: &str,
+    ) -> Option<(String, String, String, Option<String>)> {
+        self.parse_nquads_line(line)
+    }
+    pub fn verif_c14_parse_ntriples_line(&self, line: &str) -> Option<(String, String, String)> {
+        self.parse_ntriples_line(line)
+    }
+    pub fn verif_c14_tokenize_turtle_star_line(line: &str) -> Vec<String> {
+        Self::tokenize_turtle_star_line(line)
+    }
+    pub fn verif_c14_clean_turtle_term(term: &str) -> String {
+        Self::clean_turtle_term(term)
+    }
+}
+// ---- end verif hooks C14 ----
+
+// ---- verif hooks C13 ----
+// Add-only wrappers compiled only with `--cfg kolibrie_verif`; no behaviour change.
+#[cfg(kolibrie_verif)]
+impl SparqlDatabase {
+    pub fn verif_c13_parse_ntriples_parts(&self, line: &str) -> Vec<String> {
+        self.parse_ntriples_parts(line)
+    }
+    pub fn verif_c13_clean_ntriples_term(&self, term: &str) -> String {
+        self.clean_ntriples_term(term)
+    }
+    pub fn verif_c13_parse_ntriples_line(&self, line: &str) -> Option<(String, String, String)> {
+        self.parse_ntriples_line(line)
+    }
+    pub fn verif_c13_tokenize_turtle_star_line(line: &str) -> Vec<String> {
+        Self::tokenize_turtle_star_line(line)
+    }
+    pub fn verif_c13_clean_turtle_term(term: &str) -> String {
+        Self::clean_turtle_term(term)
+    }
+    pub fn verif_c13_resolve_term(&self, term: &str) -> String {
+        self.resolve_term(term)
+    }
+    pub fn verif_c13_parse_statement(&mut self, statement: &str) {
+        self.parse_statement(statement)
+    }
+}
+#[cfg(kolibrie_verif)]
+pub fn verif_c13_decode_ntriples_literal(term: &str) -> Option<(String, String)> {
+    decode_ntriples_literal(term).map(|(value, rest)| (value, rest.to_string()))
+}
+// ---- end verif hooks C13 ----
